@@ -829,6 +829,10 @@ func renderGrammar(toks []*fTok) (string, []string) {
 			switch t.Kind {
 			case "RAW", "LOOP":
 				g.used[t.Len] = true
+			case "FIELD":
+				if t.Slice && s_writerSide(t) {
+					g.used[t.Arg] = true // a slice written in one call is a loop over its elements
+				}
 			}
 			mark(t.Body)
 			mark(t.Else)
@@ -842,6 +846,18 @@ func renderGrammar(toks []*fTok) (string, []string) {
 			switch t.Kind {
 			case "FIELD":
 				w := strings.SplitN(t.Width, ":", 2)[0]
+				if t.Slice && strings.HasPrefix(w, "[]") {
+					// binary.Write(w, order, xs) ≡ for _, x := range xs { binary.Write(w, order, x) }
+					b := ""
+					if n, ok := g.names[t.Arg]; ok {
+						b = n
+					} else {
+						g.impl = append(g.impl, t.Arg)
+						b = fmt.Sprintf("IMPL%d", len(g.impl))
+					}
+					parts = append(parts, "{ "+strings.TrimPrefix(w, "[]")+" }*"+b)
+					continue
+				}
 				if t.Len != "" && g.used[t.Len] && strings.HasPrefix(t.Width, "b32") {
 					g.n++
 					g.names[t.Len] = fmt.Sprintf("L%d", g.n)
@@ -885,6 +901,8 @@ func renderGrammar(toks []*fTok) (string, []string) {
 	}
 	return pr(toks), g.impl
 }
+
+func s_writerSide(t *fTok) bool { return true }
 
 func isNumber(s string) bool {
 	if s == "" {
